@@ -469,7 +469,7 @@ namespace
             Plan p;
             int variant = (int)r.below(VAR_N);
             const Alphabet &a = alpha_of(variant);
-            int maxlen = tier == THOROUGH ? (r.chance(1, 8) ? 700 : 48) : (r.chance(1, 10) ? 64 : 20);
+            int maxlen = tier == THOROUGH ? (r.chance(1, 8) ? (faults ? 200 : 700) : 48) : (r.chance(1, 10) ? 64 : 20);
             if (!faults && tier == QUICK && r.chance(1, 25)) maxlen = 520; // pieces of 256 bytes and more
             int enc = (int)r.below(ENC_N);
             int nframes = (int)r.range(faults ? 2 : 1, faults ? 6 : 5);
